@@ -18,7 +18,10 @@
      fix_fc = false   handlePeerHeartbeat: the first heartbeat after a peer loss is only recorded
                       when the group is ACTIVE or STANDBY (possible after a forced switchover out
                       of STANDBY_ALONE), so a dual-active pair needs a second heartbeat
-     fix_fc = true    ... the PeerHeartbeatUpdate rules are applied to that heartbeat too
+     fix_fc = true    ... the PeerHeartbeatUpdate rules are applied to that heartbeat too, and an
+                      ACTIVE node that loses the election also yields to a peer reporting ACTIVE_SOLO
+                      (today only to ACTIVE, so the pair stays dual-active until the solo node has
+                      re-elected and sent another heartbeat)
 
    Priorities are uint32 in Go; they are Z here, the int32 conversions of
    handleInterfaceEvent / AdjustPriority are written out with [i32]. *)
@@ -138,7 +141,9 @@ Definition hb_update (v : variant) (c : cfg) (n : node) (p : Z) (peerid : N) (ps
   : node * list trans :=
   let n := set_peer n p ps in
   if c_preempt c && sst_eqb (n_st n) Standby && wins c n peerid then transition_to n Active
-  else if sst_eqb (n_st n) Active && sst_eqb ps Active && negb (wins c n peerid)
+  else if sst_eqb (n_st n) Active
+          && (sst_eqb ps Active || (fix_fc v && sst_eqb ps ActiveSolo))   (* 2nd disjunct: repaired only *)
+          && negb (wins c n peerid)
   then transition_to n Standby
   else if fix_hb v && sst_eqb (n_st n) Standby && sst_eqb ps Standby && wins c n peerid
   then transition_to n Active                         (* repaired only *)
